@@ -34,9 +34,12 @@ func TestVerifC13Enum(t *testing.T) {
 		Preambles: map[string][]gOp{
 			"empty":   nil,
 			"stable2": {{K: "join", Slot: 0, Sub: sub}, {K: "join", Slot: 1, Sub: sub}, {K: "settle"}},
+			// member 0 formed the group alone and was expired (group record deleted); member 1 then re-created it
+			"reborn": {{K: "join", Slot: 0, Sub: sub}, {K: "settle"}, {K: "advance", DtMs: 11000}, {K: "join", Slot: 1, Sub: sub}, {K: "settle"}},
 		},
+		DepthFor: map[string]int{"reborn": r.N(2, 4)},
 	}
-	defer r.Finish(fmt.Sprintf("bounded-exhaustive: ALL %d sequences of length %d (hence every shorter one as a prefix) over the alphabet %v, started from the empty group and from a settled Stable group of 2 members, are run on the real coordinator on virtual time and judged by the C13 observer of leg 'group' ('first' = the request carries the first (member id, generation) pair that member was ever told, which is stale as soon as the group has moved on). non-trivial = sequence in which a formerly valid identity was rejected and a current member's commit was accepted", spec.total(), spec.Depth, spec.Names))
+	defer r.Finish(fmt.Sprintf("bounded-exhaustive: ALL %d sequences of length %d (hence every shorter one as a prefix) over the alphabet %v, started from the empty group and from a settled Stable group of 2 members, plus all sequences of length %d started from a group that member 0 had formed alone, was expired from (group record deleted) and that member 1 then re-created (member 0 still remembers its old id and generation), are run on the real coordinator on virtual time and judged by the C13 observer of leg 'group' ('first' = the request carries the first (member id, generation) pair that member was ever told, which is stale as soon as the group has moved on; the observer also tracks membership per client, see leg 'group'). non-trivial = sequence in which a formerly valid identity was rejected and a current member's commit was accepted", spec.total(), spec.Depth, spec.Names, spec.depth("reborn")))
 	var cur *c13Obs
 	gEnumerate(t, spec, func(seq string) []gObserver {
 		cur = &c13Obs{r: r, model: map[c13Key]int64{{"ta", 0}: 0}, removedBy: map[string]string{}}
